@@ -12,9 +12,10 @@ except FileNotFoundError:
     pass
 
 ids = [json.loads(l)["id"] for l in open(os.path.join(VERIF, "properties.jsonl"))]
+ACCEPTED = set(open(os.path.join(VERIF, "lib", "accepted.txt")).read().split())
 checks = []
 for pid in ids:
-    if pid not in PROPS or PROPS[pid].get("disabled"):
+    if pid not in PROPS or PROPS[pid].get("disabled") or pid not in ACCEPTED:
         continue
     P = PROPS[pid]
     checks.append({
